@@ -45,7 +45,12 @@ def remStep1 (st : St) (two : Bool) : St × String :=
     | some o =>
       let l := { l with store := o.s, vol := removeMempool l.vol o.removedTx }
       if o.finish then
-        (setI st two { i with led := dropKeystore l w, rm := none }, "done-ok")
+        -- the set of ready wallets changed: the spec-level pending set keeps what is relevant to a wallet that is left
+        let l' := dropKeystore l w
+        let l' := { l' with specPend := Spec.Pending.onWalletsChanged (Led.specEnv l') l'.specPend }
+        -- (the one promise of the specification the code cannot keep after a removal — orphaned coinbase coins of
+        --  the removed wallet — is handled in `Imp.pendSpecOn` through `goneAddrs`)
+        (setI st two { i with led := l', rm := none, goneAddrs := i.goneAddrs ++ addrsOf st w }, "done-ok")
       else (setI st two { i with led := l }, "parked")
 
 def instStep (st : St) (two : Bool) (args : List String) : St × String :=
